@@ -230,6 +230,24 @@ func c17ShapedFiles(shape string) (string, string) {
 		day(vZeroDay, 4)
 		day(3, 4)
 		day(5, 4)
+	case strings.HasPrefix(shape, "widebook:"): // the recipe that comes last (in the file and in name order) has N ingredient lines
+		n := 0
+		fmt.Sscanf(shape, "widebook:%d", &n)
+		var wb strings.Builder
+		wb.WriteString(bb + "zz wide:\n")
+		for i := 0; i < n; i++ {
+			fmt.Fprintf(&wb, "  el %03d: %d\n", i, i%7+1)
+		}
+		bb = wb.String()
+		day(3, 4)
+		lb.WriteString("  zz wide: 1\n")
+	case strings.HasPrefix(shape, "bigcat:"): // the top-level category that sorts last holds N foods
+		n := 0
+		fmt.Sscanf(shape, "bigcat:%d", &n)
+		day(3, 3)
+		for i := 0; i < n; i++ {
+			fmt.Fprintf(&lb, "  zz/food %03d: %d\n", i, i%7+1)
+		}
 	case strings.HasPrefix(shape, "distinct:"): // N different foods nothing defines, in days of 256
 		n := 0
 		fmt.Sscanf(shape, "distinct:%d", &n)
@@ -529,7 +547,7 @@ func c17CLISpace() []c17CLICase {
 		}
 		out = append(out, c17CLICase{Cmd: ci, Sink: "regular-file-size-limit", Big: true})
 		for _, shape := range []string{"one-food", "one-food-twice", "today-last", "today-first", "period-none", "epoch-last", "zero-first", "rows:255", "rows:256", "rows:257", "rows:65535", "rows:65536", "rows:65537",
-			"distinct:1000", "distinct:1001", "distinct:1200", "distinct:5000", "longday-then-excluded:60", "longday-then-excluded:100", "longday-then-excluded:101", "longday-then-excluded:1000"} {
+			"widebook:47", "widebook:48", "widebook:60", "widebook:400", "bigcat:30", "bigcat:45", "bigcat:200", "distinct:1000", "distinct:1001", "distinct:1200", "distinct:5000", "longday-then-excluded:60", "longday-then-excluded:100", "longday-then-excluded:101", "longday-then-excluded:1000"} {
 			if strings.HasPrefix(shape, "rows:6") && !vThorough() && shape != "rows:65536" {
 				continue // quick: the exact power of two only
 			}
